@@ -151,6 +151,15 @@ class Hist(object):
                     if r is not g:
                         raise AssertionError('+= did not return the grid')
                 real, model = both(ri, me)
+            if real[0] == 'raises' and model[0] == 'raises' and model[1] not in real[3]:
+                # several rows of one batch are refused for different reasons: which one is reported is not fixed
+                for r in rows:
+                    try:
+                        chk_dict(r)
+                    except (TypeError, ValueError) as e:
+                        if type(e).__name__ in real[3]:
+                            model = ('raises', type(e).__name__)
+                            break
             if real[0] == 'raises' and model[0] == 'raises' and before_len <= len(g) <= len(l):
                 # a refused multi-row extend: the property fixes the outcome of refused single-row operations only, so
                 # the rows in front of the refused one may have been added (what a list fed one by one does) or not
